@@ -97,7 +97,7 @@ def one_effect(kind):
 
 
 PLACEMENTS = ["top", "then", "else", "loop1", "loop2", "loop3", "after_loop_return", "sub", "sub_in_branch",
-              "aliased_second_sub", "recursive_sub", "recursion_base_helper", "closure", "closure_in_branch",
+              "aliased_second_sub", "aliased_nested_sub", "recursive_sub", "recursion_base_helper", "closure", "closure_in_branch",
               "after_dynamic_call"]
 
 
@@ -141,6 +141,11 @@ def placement_program(kind, where):
         subs = [fn("sub0", [("a0", "int")], [("ret", P("add", ("var", "a0"), Lt(1)))], factory=True),
                 fn("sub1", [("a0", "int")], pre + [E, ("ret", ("var", "a0"))], factory=True)]
         body = [("assign", "r", ("call", "sub0", [("var", "n")])), ("assign", "s", ("call", "sub1", [("var", "m")]))]
+    elif where == "aliased_nested_sub":
+        # two distinct kernels carrying the same Python function name, one calling the other; the effect is in the inner one
+        subs = [fn("sub0", [("a0", "int")], pre + [E, ("ret", ("var", "a0"))], factory=True),
+                fn("sub1", [("a0", "int")], [("assign", "rr", ("call", "sub0", [("var", "a0")])), ("ret", ("var", "rr"))], factory=True)]
+        body = [("assign", "s", ("call", "sub1", [("var", "m")]))]
     elif where == "recursive_sub":
         subs = [fn("sub0", [("a0", "int")], [("if", P("le", ("var", "a0"), Lt(0)), [("ret", Lt(0))], [])] + pre +
                    [E, ("assign", "rr", ("call", "sub0", [P("sub", ("var", "a0"), Lt(1))])), ("ret", P("add", ("var", "rr"), Lt(1)))])]
